@@ -4,7 +4,7 @@
    each is replayed on `main` by harness/props/c12.py, see known_findings/C12.json) still does NOT satisfy
    a law the property demands; (c) examples showing that the hypotheses of the theorems are satisfiable. *)
 From Coq Require Import List Arith Bool Ascii String ZArith Lia.
-From Cb Require Import C12.Model C12.Maps C12.Registry.
+From Cb Require Import C12.Model C12.Maps C12.Registry C12.Calls.
 Import ListNotations.
 Local Open Scope string_scope.
 Local Open Scope list_scope.
@@ -13,7 +13,7 @@ Local Open Scope Z_scope.
 (* interface C { int tick(int d); };  struct S { int v; };
    impl C for S { static int n = 0; int tick(int d) { n = n + 1; return n; } }; *)
 Definition m_tick : method :=
-  {| m_name := "tick"; m_body := [SSetStatic "n" (EAdd (EStatic "n") (EConst 1))]; m_ret := EStatic "n" |}.
+  {| m_name := "tick"; m_void := false; m_locals := []; m_body := [SSetStatic "n" (EAdd (EStatic "n") (EConst 1))]; m_ret := EStatic "n" |}.
 Definition d_CS : impl_def := {| i_iface := "C"; i_type := "S"; i_statics := [("n", 0)]; i_methods := [m_tick] |}.
 Definition s1_var : name * value := ("s1", VConc "S" (PStruct [("v", 2)])).
 
@@ -37,8 +37,8 @@ Proof. vm_compute. reflexivity. Qed.
    impl B for S { static int n = 500; other: n = n + 1; return n; };
    A a = s1; B b = s1; a.get(); b.other(); a.other();
    STILL accepted (the method is found through T::m); since ffeef7f it counts in its own pair: 502 *)
-Definition m_get : method := {| m_name := "get"; m_body := [SSetStatic "n" (EAdd (EStatic "n") (EConst 1))]; m_ret := EStatic "n" |}.
-Definition m_other : method := {| m_name := "other"; m_body := [SSetStatic "n" (EAdd (EStatic "n") (EConst 1))]; m_ret := EStatic "n" |}.
+Definition m_get : method := {| m_name := "get"; m_void := false; m_locals := []; m_body := [SSetStatic "n" (EAdd (EStatic "n") (EConst 1))]; m_ret := EStatic "n" |}.
+Definition m_other : method := {| m_name := "other"; m_void := false; m_locals := []; m_body := [SSetStatic "n" (EAdd (EStatic "n") (EConst 1))]; m_ret := EStatic "n" |}.
 Definition d_AS : impl_def := {| i_iface := "A"; i_type := "S"; i_statics := [("n", 10)]; i_methods := [m_get] |}.
 Definition d_BS : impl_def := {| i_iface := "B"; i_type := "S"; i_statics := [("n", 500)]; i_methods := [m_other] |}.
 Definition prog_cross_interface : program :=
@@ -54,7 +54,7 @@ Proof. vm_compute. reflexivity. Qed.
    the callee counts in (B,S), the caller goes on counting in (A,S) *)
 Definition m_both : method :=
   {| m_name := "both";
-     m_body := [SSetStatic "n" (EAdd (EStatic "n") (EConst 1)); SCallSelf "A.S.both>other" "other" EArg;
+     m_void := false; m_locals := []; m_body := [SSetStatic "n" (EAdd (EStatic "n") (EConst 1)); SCallSelf "A.S.both>other" "other" EArg;
                 SSetStatic "n" (EAdd (EStatic "n") (EConst 1))];
      m_ret := EStatic "n" |}.
 Definition d_AS2 : impl_def := {| i_iface := "A"; i_type := "S"; i_statics := [("n", 10)]; i_methods := [m_get; m_both] |}.
@@ -67,7 +67,7 @@ Example nested_context_restored :
 Proof. vm_compute. reflexivity. Qed.
 
 (* former finding (fixed 5e201e9): typedef int P; impl C for P { int me(int d) { return self; } }; *)
-Definition m_me : method := {| m_name := "me"; m_body := []; m_ret := ESelf |}.
+Definition m_me : method := {| m_name := "me"; m_void := false; m_locals := []; m_body := []; m_ret := ESelf |}.
 Definition d_CP2 : impl_def := {| i_iface := "C"; i_type := "P"; i_statics := []; i_methods := [m_me] |}.
 Definition prog_return_self : program :=
   {| p_ifaces := [("C", ["me"])]; p_impls := [d_CP2]; p_vars := [("x", VConc "P" (PPrim 7))]; p_helpers := [];
@@ -79,9 +79,9 @@ Proof. vm_compute. reflexivity. Qed.
    impl C for S { int bump(int d) { self.v = self.v + d; return self.v; }
                   int outer(int d) { int r = self.bump(d); println(r); println(self.v); return self.v; } };
    s1.v = 2; s1.outer(5)  prints 7, then 2 (demanded 7), and s1.v stays 2 *)
-Definition m_bump : method := {| m_name := "bump"; m_body := [SSetField "v" (EAdd (EField "v") EArg)]; m_ret := EField "v" |}.
+Definition m_bump : method := {| m_name := "bump"; m_void := false; m_locals := []; m_body := [SSetField "v" (EAdd (EField "v") EArg)]; m_ret := EField "v" |}.
 Definition m_outer : method :=
-  {| m_name := "outer"; m_body := [SCallSelf "C.S.outer>bump" "bump" EArg; SPrint "C.S.outer" [EField "v"]]; m_ret := EField "v" |}.
+  {| m_name := "outer"; m_void := false; m_locals := []; m_body := [SCallSelf "C.S.outer>bump" "bump" EArg; SPrint "C.S.outer" [EField "v"]]; m_ret := EField "v" |}.
 Definition d_CS2 : impl_def := {| i_iface := "C"; i_type := "S"; i_statics := []; i_methods := [m_bump; m_outer] |}.
 Definition prog_nested_write : program :=
   {| p_ifaces := [("C", ["bump"; "outer"])]; p_impls := [d_CS2]; p_vars := [s1_var]; p_helpers := [];
@@ -91,9 +91,9 @@ Lemma nested_write_witness :
 Proof. vm_compute. reflexivity. Qed.
 
 (* ---------- positive examples: the hypotheses used by the theorems hold for ordinary programs ---------- *)
-Definition m_areaC : method := {| m_name := "area"; m_body := [SSetField "r" (EAdd (EField "r") EArg); SPrint "Shape.Circle.area" [EField "r"]];
+Definition m_areaC : method := {| m_name := "area"; m_void := false; m_locals := []; m_body := [SSetField "r" (EAdd (EField "r") EArg); SPrint "Shape.Circle.area" [EField "r"]];
                                    m_ret := EMul (EField "r") (EConst 3) |}.
-Definition m_areaR : method := {| m_name := "area"; m_body := [SPrint "Shape.Rect.area" [EField "w"; EField "h"]];
+Definition m_areaR : method := {| m_name := "area"; m_void := false; m_locals := []; m_body := [SPrint "Shape.Rect.area" [EField "w"; EField "h"]];
                                    m_ret := EMul (EField "w") (EField "h") |}.
 Definition d_SC : impl_def := {| i_iface := "Shape"; i_type := "Circle"; i_statics := [("n", 0)]; i_methods := [m_areaC] |}.
 Definition d_SR : impl_def := {| i_iface := "Shape"; i_type := "Rect"; i_statics := [("n", 100)]; i_methods := [m_areaR] |}.
@@ -110,6 +110,84 @@ Example dispatch_example :
                  p_ops := [OBind "s" "Shape" "c"; OCall (RVar "s") "area" 5; OBind "s" "Shape" "q"; OCall (RVar "s") "area" 0; OShow "c"] |}
   = ([("Shape.Circle.area", [7]); ("", [21]); ("Shape.Rect.area", [3; 4]); ("", [12]); ("c", [2])], None).
 Proof. vm_compute. reflexivity. Qed.
+
+
+(* ---------- nesting three deep across three pairs that all declare a static `n` (the shape of seeded/C12-1) ----------
+   struct Mail { int size; }; struct Hub { int id; };
+   impl Job for Mail { static int n = 0;
+     int cost(int d)    { return self.size * 2; }
+     int process(int d) { int r = self.cost(0); println("Job.Mail.process>cost", r); n = n + 1; self.size = self.size + 1; return n; } };
+   impl Registry for Hub { static int n = 1000;
+     int submit(int d) { Mail lm; lm.size = 3; Job j = lm; n = n + 1; println(j.process(0)); println(j.process(0)); n = n + 1; return n; } };
+   Hub h; h.submit(0);  -> process counts 1, 2 in (Job,Mail) although it runs under submit and after its own nested call;
+   submit counts 1001, 1002 in (Registry,Hub) *)
+Definition m_cost : method := {| m_name := "cost"; m_void := false; m_locals := []; m_body := []; m_ret := EMul (EField "size") (EConst 2) |}.
+Definition m_process : method :=
+  {| m_name := "process"; m_void := false; m_locals := [];
+     m_body := [SCallSelf "Job.Mail.process>cost" "cost" (EConst 0); SSetStatic "n" (EAdd (EStatic "n") (EConst 1));
+                SSetField "size" (EAdd (EField "size") (EConst 1))];
+     m_ret := EStatic "n" |}.
+Definition m_submit : method :=
+  {| m_name := "submit"; m_void := false; m_locals := [("lm", VConc "Mail" (PStruct [("size", 3)]))];
+     m_body := [SOp (OBind "j" "Job" "lm"); SSetStatic "n" (EAdd (EStatic "n") (EConst 1));
+                SOp (OCall (RVar "j") "process" 0); SOp (OCall (RVar "j") "process" 0);
+                SSetStatic "n" (EAdd (EStatic "n") (EConst 1))];
+     m_ret := EStatic "n" |}.
+Definition d_JobMail : impl_def := {| i_iface := "Job"; i_type := "Mail"; i_statics := [("n", 0)]; i_methods := [m_cost; m_process] |}.
+Definition d_RegHub : impl_def := {| i_iface := "Registry"; i_type := "Hub"; i_statics := [("n", 1000)]; i_methods := [m_submit] |}.
+Definition prog_three_deep : program :=
+  {| p_ifaces := [("Job", ["cost"; "process"]); ("Registry", ["submit"])]; p_impls := [d_JobMail; d_RegHub];
+     p_vars := [("h", VConc "Hub" (PStruct [("id", 1)]))]; p_helpers := [];
+     p_ops := [OCall (RVar "h") "submit" 0; OCall (RVar "h") "submit" 0] |}.
+Example three_deep_statics_stay_with_their_pair :
+  run_program prog_three_deep =
+  ([("Job.Mail.process>cost", [6]); ("", [1]); ("Job.Mail.process>cost", [8]); ("", [2]); ("", [1002]);
+    ("Job.Mail.process>cost", [6]); ("", [3]); ("Job.Mail.process>cost", [8]); ("", [4]); ("", [1004])], None).
+Proof. vm_compute. reflexivity. Qed.
+
+(* a void method: the receiver gets its writes back (variable, pointer) and a nested  self.grow(d)  of a void
+   method leaves its writes in the caller's self:
+   impl C for S { void grow(int d) { self.v = self.v + d; }
+                  void twice(int d) { self.grow(d); println("C.S.twice>grow", 0); self.grow(d); println(.., 0); println("C.S.twice", self.v); } }; *)
+Definition m_grow : method := {| m_name := "grow"; m_void := true; m_locals := []; m_body := [SSetField "v" (EAdd (EField "v") EArg)]; m_ret := EConst 0 |}.
+Definition m_twice : method :=
+  {| m_name := "twice"; m_void := true; m_locals := [];
+     m_body := [SCallSelf "C.S.twice>grow" "grow" EArg; SCallSelf "C.S.twice>grow" "grow" EArg; SPrint "C.S.twice" [EField "v"]];
+     m_ret := EConst 0 |}.
+Definition d_CS3 : impl_def := {| i_iface := "C"; i_type := "S"; i_statics := []; i_methods := [m_grow; m_twice] |}.
+Definition prog_void_nested : program :=
+  {| p_ifaces := [("C", ["grow"; "twice"])]; p_impls := [d_CS3]; p_vars := [s1_var]; p_helpers := [];
+     p_ops := [OCall (RVar "s1") "twice" 5; OShow "s1"; OPtr "q" "s1"; OCall (RPtr "q") "grow" 1; OShow "s1"] |}.
+Example void_nested_writes_visible :
+  run_program prog_void_nested =
+  ([("C.S.twice>grow", [0]); ("C.S.twice>grow", [0]); ("C.S.twice", [12]); ("", [0]); ("s1", [12]); ("", [0]); ("s1", [13])], None).
+Proof. vm_compute. reflexivity. Qed.
+
+(* guarded recursion inside one pair, eight frames deep, every frame counting in the pair's static before and
+   after its nested call:  int down(int d) { n = n + 1; if (d > 0) { int r = self.down(d - 1); println(.., r); } n = n + 1; return n; } *)
+Definition m_down : method :=
+  {| m_name := "down"; m_void := false; m_locals := [];
+     m_body := [SSetStatic "n" (EAdd (EStatic "n") (EConst 1));
+                SGuard EArg (SCallSelf "C.S.down>down" "down" (ESub EArg (EConst 1)));
+                SSetStatic "n" (EAdd (EStatic "n") (EConst 1))];
+     m_ret := EStatic "n" |}.
+Definition d_CS4 : impl_def := {| i_iface := "C"; i_type := "S"; i_statics := [("n", 0)]; i_methods := [m_down] |}.
+Example recursion_counts_in_one_pair :
+  run_program {| p_ifaces := [("C", ["down"])]; p_impls := [d_CS4]; p_vars := [s1_var]; p_helpers := []; p_ops := [OCall (RVar "s1") "down" 2] |}
+  = ([("C.S.down>down", [4]); ("C.S.down>down", [5]); ("", [6])], None).
+Proof. vm_compute. reflexivity. Qed.
+
+(* the hypotheses of impl_statics_separate are satisfiable: {Hub, Mail} is closed for prog_three_deep *)
+Example closed_example : forall r, register_all empty_registry (p_impls prog_three_deep) = inl r ->
+  closed (r_funcs r) (fun t => t = "Hub" \/ t = "Mail").
+Proof.
+  intros r R. vm_compute in R. inversion R; subst; clear R. intros k fe L T x v I.
+  simpl in L.
+  repeat match type of L with
+  | (if ?c then _ else _) = _ => destruct c; [inversion L; subst; simpl in I; try contradiction|]
+  end; try discriminate;
+  try (destruct I as [I|[]]; inversion I; subst; simpl; auto).
+Qed.
 
 (* ---------- the refuted laws, as stated in Properties_C12.v ---------- *)
 Lemma method_outside_interface_rejected_refuted_l :
